@@ -174,7 +174,7 @@ fn main() {
         }
     }
     let seqs = sequences_up_to(&alphabet, max_items);
-    let variants: Vec<(bool, bool)> = if ctx.thorough() { vec![(false, true), (true, true), (false, false), (true, false)] } else { vec![(false, true)] };
+    let variants: Vec<(bool, bool)> = vec![(false, true), (true, true), (false, false), (true, false)]; // all builder variants in both tiers (cheap)
     let mut cases = Vec::with_capacity(seqs.len() * variants.len());
     for &(clear_first, required) in &variants {
         for s in &seqs {
